@@ -283,6 +283,13 @@ def ch3_drop_accounting(ctx, rep, arms=("BlockOnFull", "DropOldest", "DropLatest
                     lost.append(("popped", item, _variant_of(p, item)))
         ret = p.ret
         is_err = ret[0] == "agg" and ret[1].endswith("Result::Err")
+        if not is_err:
+            # `tx.try_send(item).map(..).map_err(|e| ..)`: the returned Result is the send's own,
+            # mapped - Err exactly when the send said Err on this path
+            base_ = ret
+            while base_[0] in ("maperr", "mapok", "mapped") and len(base_) > 1:
+                base_ = base_[2] if base_[0] == "mapped" else base_[1]
+            is_err = any(k == ("discr", base_) and str(v).lstrip("*") == "Err" for k, v in p.decisions) and base_[0] == "call"
         if is_err and pol in DROP_POLICIES:
             last = [e for e in p.calls() if e.ck in CB_TRYSEND]
             if last:
